@@ -168,7 +168,7 @@ pub fn run_check(replay: Option<Value>) -> i32 {
     for n in [3usize, 5, 8] {
         fams.push(Family { name: format!("kinetics-chain(n={})", n), make: Box::new(move |k| kinetics_chain(n, k)), span: 2.0, invariant_sum: true });
     }
-    let tols: Vec<f64> = vec![1e-4, 1e-6, 1e-8];
+    let tols: Vec<f64> = if thorough { vec![1e-3, 1e-4, 1e-5, 1e-6, 1e-7, 1e-8, 1e-9] } else { vec![1e-4, 1e-6, 1e-8] };
     // --- stiffness ladders: one job = (method, family, tol, jacobian): the whole ladder of k
     let mut jobs = vec![];
     for (mi, m) in MI.iter().enumerate() {
@@ -198,7 +198,9 @@ pub fn run_check(replay: Option<Value>) -> i32 {
         let mut viols: Vec<(String, String)> = vec![];
         for k in KS {
             let p = (fam.make)(k);
-            if shape == 1 && p.n < 2 {
+            // (a per-component atol below 1e-14 on components of size one asks for less than the rounding
+            // noise eps*k*|y| of the stiff right-hand side itself: not a valid request)
+            if shape == 1 && (p.n < 2 || tol * 1e-6 < 1e-14) {
                 return None;
             }
             let mut c = Cfg::new(m, 0.0, fam.span, &p.y0).tol(tol, tol * 1e-2);
